@@ -33,6 +33,61 @@ def _byte_and_mask(idx):
     return byte, mask
 
 
+def count_maintained(prog, fld):
+    """is self.<fld> kept equal to the number of set bits by EVERY writer of the byte array?  (the only way a remembered population
+    count can be returned instead of a recount).  Decision table per returning path: a set-store only where the bit was clear, with
+    count + 1; a clear-store only where it was set, with count - 1; whole-array zeroing leaves 0; no store, no change; starts at 0."""
+    F = ("f", SELF, fld, 0)
+    for f in own_methods(prog, CLS):
+        if f.prop:
+            continue
+        ps = paths(prog, CLS, f, force_inline=("set_bit", "clear_bit") if f.src_name == "__setitem__" else ())
+        for p in ps:
+            if p.exit[0] != "return":
+                continue
+            stores = [e for e in p.events if e.kind == "setelem" and outer_field(e.cont) == ARR]
+            deltas = [e for e in p.events if e.kind == "setfield" and e.base == SELF and e.name == fld]
+            if f.src_name == "__init__":
+                if p.fields.get((SELF, fld)) != C(0):
+                    return False, f"{CLS}.__init__ does not start {fld} at 0"
+                continue
+            if not stores:
+                vacuous = any(c.atom[0] == "loop0" and c.truth for c in p.conds) and strip_epochs(p.fields.get((SELF, fld), F)) == C(0)
+                if deltas and not vacuous:
+                    return False, f"{CLS}.{f.src_name} changes {fld} on a path that stores no bit"
+                continue
+            whole = [e for e in stores if e.loops or e.index[0] == "slc"]
+            if whole:
+                if strip_epochs(p.fields.get((SELF, fld), F)) != C(0):
+                    return False, f"{CLS}.{f.src_name} rewrites the whole array without setting {fld} to 0"
+                continue
+            if len(stores) != 1:
+                return False, f"{CLS}.{f.src_name} stores {len(stores)} bytes on one path"
+            e = stores[0]
+            v = strip_epochs(norm(rowform(e.value)))
+            rd = ("sub", ("f", SELF, ARR, 0), strip_epochs(norm(rowform(e.index))), 0)
+            if v[0] == "nary" and v[1] == "|" and len(v[2]) == 2 and rd in v[2]:
+                kind, mask = "set", [t for t in v[2] if t != rd][0]
+            elif v[0] == "nary" and v[1] == "&" and len(v[2]) == 2 and rd in v[2] and [t for t in v[2] if t != rd][0][0] == "un":
+                kind, mask = "clear", [t for t in v[2] if t != rd][0][2]
+            else:
+                return False, f"{CLS}.{f.src_name} stores {nshow(e.value)}, neither old|m nor old&~m"
+            probe = norm(("bin", "&", rd, mask))
+            was_set = None
+            for c in conds_at(p, e):
+                c = strip_epochs(norm(rowform(c)))
+                if c == probe or c == ("cmp", "!=", probe, C(0)):
+                    was_set = True
+                elif c in (("un", "not", probe), ("cmp", "==", probe, C(0))):
+                    was_set = False
+            want = norm(("bin", "+" if kind == "set" else "-", F, C(1)))
+            if was_set is None or was_set != (kind == "clear"):
+                return False, f"{CLS}.{f.src_name} {kind}s a bit and moves {fld} without having established that the bit was {'set' if kind == 'clear' else 'clear'} before"
+            if len(deltas) != 1 or strip_epochs(norm(deltas[0].value)) != want:
+                return False, f"{CLS}.{f.src_name} {kind}s a bit but {fld} does not move by exactly {'+1' if kind == 'set' else '-1'}"
+    return True, ""
+
+
 def check(prog, rep, tier):
     rep.extra["explanation"] = EXPL
     K = prog.cls(CLS)
@@ -265,10 +320,18 @@ def check(prog, rep, tier):
             if p.exit[0] != "return" or good is None:
                 continue
             stale = sorted({n[2] for n in walk(p.exit[1]) if n[0] == "f" and n[1] == SELF and n[2] not in (ARR, "_size", "_size_bytes")})
+            why = ""
+            if stale and name == "num_bits_set" and strip_epochs(p.exit[1]) == ("f", SELF, stale[0], 0):
+                # a remembered population count: exact iff every writer of the byte array maintains it
+                okm, why = count_maintained(prog, stale[0])
+                if okm:
+                    rep.ok("C20.full-range", f"{CLS}.{name}: returns {stale[0]}, which every writer of the byte array keeps equal to the population count")
+                    good = None
+                    break
             if stale:
                 rep.bad("C20.full-range", f"{CLS}.{name}", f"returns remembered {stale}",
                         f"{name} can return a value read from {stale} instead of recomputing it from the bits: every writer of the byte array (item assignment, set_bit, clear_bit, clear) "
-                        "would have to keep that field exact, and the result disagrees with the bits as soon as one does not", f.where(p.exit[2]))
+                        "would have to keep that field exact, and the result disagrees with the bits as soon as one does not" + (f" ({why})" if why else ""), f.where(p.exit[2]))
                 good = None
                 break
         if good:
